@@ -1072,7 +1072,10 @@ class PDFDocument:
             # a /Prev or /XRefStm chain that leads back to a section already read
             return
         visited.add(start)
-        parser.seek(start)
+        try:
+            parser.seek(start)
+        except (OverflowError, ValueError):
+            raise PDFNoValidXRef(f"Invalid xref position: {start}")
         parser.reset()
         try:
             (pos, token) = parser.nexttoken()
